@@ -109,7 +109,13 @@ class MultiFunction(Generic[T, P]):
     ) -> bool:
         """Return True if `tag` should be considered ahead of `parent` for method
         selection."""
-        return self._has_preference(tag, parent) or self._is_a(tag, parent, hierarchy)
+        if self._has_preference(tag, parent):
+            return True
+        # An explicit preference for `parent` overrides the hierarchy, otherwise both
+        # keys would precede each other and the winner would depend on iteration order.
+        return self._is_a(tag, parent, hierarchy) and not self._has_preference(
+            parent, tag
+        )
 
     def add_method(self, key: T, method: Method[T, P]) -> None:
         """Add a new method to this function which will respond for key returned from
@@ -132,20 +138,33 @@ class MultiFunction(Generic[T, P]):
             if cached_val is not None:
                 return cached_val
 
-            best_key: T | None = None
+            # The best match is the one which precedes every other match. Comparing
+            # each match only against a running best (as Clojure does) reports an
+            # ambiguity or not depending on the iteration order of the method table.
+            matches = [
+                (method_key, method)
+                for method_key, method in self._methods.items()
+                if self._is_a(key, method_key, hierarchy)
+            ]
             best_method: Method | None = None
-            for method_key, method in self._methods.items():
-                if self._is_a(key, method_key, hierarchy):
-                    if best_key is None or self._precedes(
-                        method_key, best_key, hierarchy
-                    ):
-                        best_key, best_method = method_key, method
-                    if not self._precedes(best_key, method_key, hierarchy):
-                        raise runtime.RuntimeException(
-                            "Cannot resolve a unique method for dispatch value "
-                            f"'{key}'; '{best_key}' and '{method_key}' both match and "
-                            "neither is preferred"
-                        )
+            for method_key, method in matches:
+                others = [k for k, _ in matches if k is not method_key]
+                if all(self._precedes(method_key, k, hierarchy) for k in others):
+                    best_method = method
+                    break
+            else:
+                if matches:
+                    best_key = matches[0][0]
+                    other_key = next(
+                        k
+                        for k, _ in matches[1:]
+                        if not self._precedes(best_key, k, hierarchy)
+                    )
+                    raise runtime.RuntimeException(
+                        "Cannot resolve a unique method for dispatch value "
+                        f"'{key}'; '{best_key}' and '{other_key}' both match and "
+                        "neither is preferred"
+                    )
 
             if best_method is None:
                 best_method = self._methods.val_at(self._default)
